@@ -242,6 +242,7 @@ type verifH struct {
 	tainted     map[verifKey]bool        // (ref, blob) -> a resolution error may be memoised for it
 	relZero     map[verifKey]bool        // (ref, toc) was released down to zero before
 	hist        []string
+	reportKnown bool
 }
 
 func verifTocOfBlob(i int, b verifBlob) int {
@@ -401,6 +402,18 @@ func (h *verifH) noteDone(w *verifLayer) {
 	h.doneMu.Lock()
 	h.doneIDs = append(h.doneIDs, w.id)
 	h.doneMu.Unlock()
+}
+
+// known reports a failure of the property that is recorded in findings/known_findings.txt.  The
+// main pass only counts it (an oracle failure in a pass makes the runner downgrade stream
+// mismatches of that pass to a note, and the main pass must keep its strict correspondence); the
+// separate pass TestVerifC16Known reports it with out.Fail.
+func (h *verifH) known(sig, what string) {
+	if h.reportKnown {
+		h.fail(sig, what)
+		return
+	}
+	h.out.Count("known-" + sig)
 }
 
 func (h *verifH) fail(sig, what string) {
@@ -724,7 +737,9 @@ func (h *verifH) lookup(ref, toc int, via string) {
 				h.fail("lookup-existing-failed", fmt.Sprintf("lookup(%d,%d) failed although the image contains the layer and the registry is healthy", ref, toc))
 			}
 		} else if healthy {
-			h.out.Count("lookup-failed-on-memoised-error")
+			// the registry answers now, the only explanation left is the error that an earlier
+			// resolution of this very layer memoised (known finding)
+			h.known("lookup-failed-memoised-registry-error", fmt.Sprintf("lookup(%d,%d) failed although the registry is healthy now: an earlier registry error for blob %d is still memoised", ref, toc, mb))
 		} else {
 			h.out.Count("lookup-failed-registry-error")
 		}
@@ -958,6 +973,21 @@ func (h *verifH) release(ref, toc int, viaNode bool) {
 		}
 		if total == 0 {
 			h.out.Count("release-image-to-zero")
+			// the image's last use is gone: layers that were resolved along with the used ones but
+			// never used themselves are still cached and not Done (known finding)
+			var kept []string
+			for _, bi := range im.layers {
+				if !h.blobs[bi].esgz {
+					continue
+				}
+				if c := h.cached(ref, bi); c != nil && !c.isDone() {
+					kept = append(kept, strconv.Itoa(bi))
+				}
+			}
+			if len(kept) > 0 {
+				sort.Strings(kept)
+				h.known("unused-sibling-layers-kept-after-last-release", fmt.Sprintf("release(%d,%d) released the last use of image %d but its layers %s are still cached and not Done", ref, toc, ref, strings.Join(kept, ",")))
+			}
 			for k := range h.tainted { // last use of the image: its resolution bookkeeping must be dropped
 				if k.ref == ref {
 					delete(h.tainted, k)
@@ -1154,6 +1184,10 @@ func (h *verifH) do(s verifStep) {
 	case "okmf":
 		h.setFailMf(s.ref, false)
 		h.hist = append(h.hist, fmt.Sprintf("[registry: manifest of ref %d ok]", s.ref))
+	case "snapcheck": // no operation: the sibling must still be there for the finding to be what we think
+		if h.cached(s.ref, s.x) == nil {
+			h.out.Count("known-scenario-sibling-not-cached")
+		}
 	default:
 		h.t.Fatalf("unknown step %q", s.op)
 	}
@@ -1191,6 +1225,16 @@ func (h *verifH) handWritten() {
 	h.play("two-images-shared-blob", []verifStep{
 		{"lookup", A, 1}, {"lookup", B, 1}, {"use", A, 1}, {"use", B, 1}, {"release", A, 1}, {"lookup", B, 1}, {"lookup", A, 1},
 		{"release", B, 1}, {"lookup", B, 1}})
+	// an error memoised for L2 during the first resolution, L3 resolved but never used, L1 used and
+	// released to zero, registry heals: the fresh lookup of L2 must succeed
+	h.play("error-then-last-release-then-recovery", []verifStep{
+		{"failblob", A, 1}, {"lookup", A, 0}, {"use", A, 0}, {"release", A, 0}, {"okblob", A, 1}, {"lookup", A, 1},
+		{"lookup", A, 2}, {"lookup", A, 0}})
+	// the error of ANOTHER layer (memoised: the non-eStargz layer of image B) arrives at once when a
+	// dropped layer is resolved again; the wanted layer itself has no error
+	h.play("foreign-error-arrives-first", []verifStep{
+		{"lookup", B, 3}, {"use", B, 3}, {"use", B, 1}, {"release", B, 3}, {"lookup", B, 3}, {"use", B, 3},
+		{"release", B, 1}, {"lookup", B, 1}, {"release", B, 3}, {"lookup", B, 3}, {"lookup", B, 1}})
 	h.play("node-handlers", []verifStep{
 		{"nlookup-info", A, 0}, {"nlookup-diff", A, 0}, {"nuse", A, 0}, {"nlookup-blob", A, 0}, {"nlookup-info", A, 0},
 		{"nrelease", A, 0}, {"nlookup-diff", A, 0}, {"nrelease", A, 0}, {"nlookup-diff", A, 100}, {"nlookup-blob", N, 0},
@@ -1347,6 +1391,36 @@ func (h *verifH) race(round int) {
 	}
 	h.out.Emit("lookup 0 0 1 111", res0)
 	h.out.Emit("snap", h.snap())
+}
+
+// knownScenarios: the two recorded findings, triggered on every run.
+func (h *verifH) knownScenarios() {
+	const A, C = 0, 2
+	h.play("known-memoised-registry-error", []verifStep{
+		{"failblob", A, 1}, {"lookup", A, 1}, {"okblob", A, 1}, {"lookup", A, 1}, {"lookup", A, 0}, {"lookup", A, 1},
+		{"use", A, 0}, {"release", A, 0}, {"lookup", A, 1}})
+	h.play("known-unused-siblings-kept", []verifStep{
+		{"lookup", A, 0}, {"use", A, 0}, {"release", A, 0}, {"snapcheck", A, 1}, {"lookup", A, 1}, {"lookup", A, 0},
+		{"use", A, 1}, {"use", A, 2}, {"release", A, 1}, {"release", A, 2},
+		{"lookup", C, 3}, {"use", C, 3}, {"release", C, 3}})
+}
+
+// TestVerifC16Known is the separate pass in which the known findings are reported as oracle
+// failures (and nothing else may fail).
+func TestVerifC16Known(t *testing.T) {
+	log.SetLevel("panic")
+	h := verifNewH(t)
+	defer h.close()
+	h.reportKnown = true
+	h.knownScenarios()
+	n := verifutil.EnvInt("VERIF_N", 40)
+	for k := 0; k < n; k++ {
+		h.out.Comment(fmt.Sprintf("history %d", k))
+		h.randomHistory(k)
+	}
+	if h.root != "" {
+		os.RemoveAll(h.root)
+	}
 }
 
 func TestVerifC16(t *testing.T) {
